@@ -56,6 +56,9 @@ func genIndConfig(rng *rand.Rand, e *IndEntity, allowDefault bool) (cfg []int, s
 
 // genLen draws an input length around the warm-up w: boundaries are favoured.
 func genLen(rng *rand.Rand, w int, maxLong int) int {
+	if w < 0 {
+		w = 0
+	}
 	switch rng.Intn(10) {
 	case 0:
 		return 0
